@@ -30,6 +30,9 @@ def build_probe():
     return so
 
 
+BACKSLASH_NAME = "./ext\\libprobe.so"     # a file in the working directory whose name contains a backslash
+
+
 def q(s):
     return '"' + s.replace("\\", "\\\\").replace('"', '\\"') + '"'
 
@@ -39,7 +42,8 @@ def assemble(c, lib):
     for v in c["vals"]:
         lines.append(f"\t{MAKE[v['kind']]} {q(v['src'])}")
     def callins(call):
-        libpath = str(lib) if call != "missing_library" else str(lib) + ".absent"
+        base = str(lib) if c.get("spell", "plain") == "plain" else BACKSLASH_NAME
+        libpath = base if call != "missing_library" else base + ".absent"
         sym = call if call.startswith("probe_") else ("probe_echo" if call == "missing_library" else "probe_absent")
         return [f"\tcall_lib {q(libpath)} {q(sym)}", '\tprintn "*"', "\tvoid"]
     lines += callins(c["call"])
@@ -56,6 +60,8 @@ def observe(binary, root, c, lib):
     d.mkdir(exist_ok=True)
     for f in d.iterdir():
         f.unlink()
+    if c.get("spell") == "backslash":
+        os.symlink(lib, d / BACKSLASH_NAME[2:])
     (d / "main.transpiled.mmm").write_text(assemble(c, lib))
     t = C.run_proc([binary, "transpile", "main.transpiled.mmm"], cwd=d, timeout=10)
     if t["exit"] != 0:
@@ -75,12 +81,12 @@ def run(tier, replay=None):
         raise C.ToolError(f"MSFfiMachine: {mm.error or mm.invariant_violated}")
     c3, g = gen.run_generator("GenFfi", work / "gen", dict(MaxLen=(3 if tier == "quick" else 4)), timeout=2400)
     c1, g1 = gen.run_generator("GenFfi", work / "gen1", dict(MaxLen=(1 if tier == "quick" else 2), ValIdx="{1,2,3,4,5,6,7,8,9,10,11,12}"))
-    cases = gen.dedupe(c3 + c1, lambda c: (tuple(c["args"]), c["call"], c["call2"], tuple(c["args2"])))
+    cases = gen.dedupe(c3 + c1, lambda c: (tuple(c["args"]), c["call"], c["call2"], tuple(c["args2"]), c["spell"]))
     if tier == "thorough":
         c6, g6 = gen.run_generator("GenFfi", work / "gen6", dict(MaxLen=6, ValIdx="{1,2}"))
-        cases = gen.dedupe(cases + c6, lambda c: (tuple(c["args"]), c["call"], c["call2"], tuple(c["args2"])))
+        cases = gen.dedupe(cases + c6, lambda c: (tuple(c["args"]), c["call"], c["call2"], tuple(c["args2"]), c["spell"]))
     for c in cases:
-        c["id"] = f"{c['call']}({', '.join(v['dbg'] for v in c['vals'])})" + (f" ; {c['call2']}({', '.join(v['dbg'] for v in c['vals2'])})" if c["call2"] else "")
+        c["id"] = ("" if c["spell"] == "plain" else "[lib name with backslash] ") + f"{c['call']}({', '.join(v['dbg'] for v in c['vals'])})" + (f" ; {c['call2']}({', '.join(v['dbg'] for v in c['vals2'])})" if c["call2"] else "")
     cases.sort(key=lambda c: c["id"])
     root = C.fresh_dir(work / "slots")
     obs = C.pmap(lambda c: observe(binary, root, c, lib), cases)
